@@ -775,6 +775,13 @@ pub fn hook_format_choice_options(c: &crate::intermediate::types::Choice, parent
     crate::generator::rasn::Rasn::default().format_choice_options(c, parent)
         .map(|f| (f.enum_body.to_string(), f.nested_anonymous_types.iter().map(|t| t.to_string()).collect())).map_err(|e| format!("{e:?}"))
 }
+/// accessor for the native replay of generate_integer_value (unit GEN_values): the constant of `name <type> ::= v` as tagged by the linker
+#[cfg(not(kani))]
+pub fn hook_generate_integer_value(name: &str, associated_type: &ASN1Type, integer_type: crate::intermediate::IntegerType, v: i128) -> Result<String, String> {
+    let mut tld = ToplevelValueDefinition::from((name, ASN1Value::LinkedIntValue { integer_type, value: v }, associated_type.clone()));
+    tld.comments = String::new();
+    crate::generator::rasn::Rasn::default().generate_integer_value(tld).map(|t| t.to_string()).map_err(|e| format!("{e:?}"))
+}
 /// accessor for the native replay of unit GEN_values: Rasn::value_to_tokens, token text as proc_macro2 prints it
 #[cfg(not(kani))]
 pub fn hook_value_to_tokens(v: &crate::intermediate::ASN1Value, type_name: Option<&str>) -> Result<String, String> {
